@@ -265,6 +265,9 @@ class HTTPStream:
         )
         await self.send(EndBody(stream_id=self.stream_id))
         self.state = ASGIHTTPState.CLOSED
-        await self.config.log.access(
-            self.scope, {"status": status_code, "headers": []}, time() - self.start_time
-        )
+        if not self.closed:
+            # Otherwise (the connection failed whilst sending this
+            # response) the request has already been logged
+            await self.config.log.access(
+                self.scope, {"status": status_code, "headers": []}, time() - self.start_time
+            )
